@@ -40,3 +40,45 @@ pub fn txn_postings(txn: &Transaction) -> Vec<PostingParts> {
 pub fn txn_set_txns<'a>(txn_set: &'a TxnSet<'a>) -> &'a [&'a Transaction] {
     &txn_set.txns
 }
+
+/// One posting as the reports see it after price conversion
+/// (`PriceLookupCtx::convert_prices`): account, commodity, amount, rate reported per posting
+#[derive(Debug, Clone)]
+pub struct ConvertedPosting {
+    pub account: String,
+    pub commodity: String,
+    pub amount: Decimal,
+    pub rate: Option<Decimal>,
+}
+
+/// Price conversion exactly as the reporters set it up: `PriceLookup::make_ctx` over the
+/// transactions of the set with the settings' lookup type, report commodity and price db,
+/// then `convert_prices` per transaction, and the context's `metadata()`.
+pub fn price_conversion(
+    settings: &crate::kernel::Settings,
+    txn_set: &TxnSet<'_>,
+) -> (
+    Vec<Vec<ConvertedPosting>>,
+    tackler_api::metadata::items::PriceRecords,
+) {
+    let ctx = settings.get_price_lookup().make_ctx(
+        &txn_set.txns,
+        settings.get_report_commodity(),
+        &settings.price.price_db,
+    );
+    let txns = txn_set
+        .txns
+        .iter()
+        .map(|txn| {
+            ctx.convert_prices(txn)
+                .map(|(acctn, amount, rate)| ConvertedPosting {
+                    account: acctn.atn.account.clone(),
+                    commodity: acctn.comm.name.clone(),
+                    amount,
+                    rate,
+                })
+                .collect()
+        })
+        .collect();
+    (txns, ctx.metadata())
+}
